@@ -379,7 +379,8 @@ class HdlcFrameReader(MeterReaderBase[HdlcFrame]):
 
         elif len(self._frame) == 0:
             # Found new flag sequence. Two is normal ( end + start), one is allowed, and many possible if time fill.
-            pass
+            # Drop raw octets that did not contribute to the frame (a lone control escape).
+            self._raw_frame_data.clear()
 
         elif self._frame.header.header_check_sequence is None:
             # Frames which are too short are silently discarded, and not counted as a FCS error.
